@@ -20,6 +20,9 @@ type Gen struct {
 	PlainKeys bool
 	// Plain restricts all leaves to benign values.
 	Plain bool
+	// NoPatchOperatorKeys avoids the map keys "$set" and "$delete" (the exclusion matcher cannot tell them from the
+	// partial-update operators: known finding KF-C07-patch-operator-map-keys)
+	NoPatchOperatorKeys bool
 	// TextBytes restricts bytes / fixed leaves to valid UTF-8 text (the JSON formats cannot carry anything else:
 	// known finding KF-C01-json-non-utf8); used by checks whose subject is something other than the codec.
 	TextBytes bool
@@ -82,7 +85,11 @@ func (g *Gen) Key(t *rapid.T, label string) string {
 	if g.PlainKeys || g.Plain {
 		return rapid.StringMatching(`[a-zA-Z0-9_]{1,6}`).Draw(t, label)
 	}
-	return g.String(t, label)
+	k := g.String(t, label)
+	if g.NoPatchOperatorKeys && (k == "$set" || k == "$delete") {
+		k += "_"
+	}
+	return k
 }
 
 func (g *Gen) RawBytes(t *rapid.T, label string, n int) []byte {
